@@ -581,12 +581,14 @@ struct FileSpec {
     cache: Option<u64>,
     maxpage: Option<u64>,
     slice: usize,
+    /// `DecoderConfig::cache_repetition_index` of the reader (off by default in lance)
+    crep: bool,
 }
 
 impl FileSpec {
     fn line(&self, ncols: usize) -> String {
         format!(
-            "file v={} rows={} ncols={} spec={} seed={} nullp={} maxlen={} long={} batches={} cache={} maxpage={} slice={}",
+            "file v={} rows={} ncols={} spec={} seed={} nullp={} maxlen={} long={} batches={} cache={} maxpage={} slice={} crep={}",
             self.vtxt,
             self.rows,
             ncols,
@@ -598,7 +600,8 @@ impl FileSpec {
             show_nat_list(self.batches.iter().map(|x| *x as u64)),
             self.cache.map(|c| c.to_string()).unwrap_or("none".into()),
             self.maxpage.map(|c| c.to_string()).unwrap_or("none".into()),
-            self.slice
+            self.slice,
+            self.crep as u8
         )
     }
 
@@ -638,6 +641,7 @@ impl FileSpec {
             cache: opt(kv("cache")?)?,
             maxpage: opt(kv("maxpage")?)?,
             slice: kv("slice")?.parse().ok()?,
+            crep: kv("crep").map(|v| v == "1").unwrap_or(false),
         };
         if fs.batches.iter().sum::<usize>() != fs.rows || fs.rows > 200_000 || fs.nullp > 16 {
             return None;
@@ -674,6 +678,8 @@ struct Written {
     /// per leaf (DFS): rows per page (2.1+; a single synthetic page for 2.0) and whether a page is an all-null layout
     pages: Vec<Vec<u64>>,
     all_null_pages: Vec<Vec<bool>>,
+    /// per leaf, per page: full-zip layout
+    fz_pages: Vec<Vec<bool>>,
     /// per leaf, per page: for a mini-block page with a repetition index, (levels per chunk, (ends, partial) per chunk)
     mb_pages: Vec<Vec<Option<(Vec<u64>, Vec<(u64, u64)>)>>>,
     /// page layout kinds present in the file
@@ -714,14 +720,19 @@ fn write_file(rt: &tokio::runtime::Runtime, fs: &FileSpec) -> Result<Written, St
             fsched,
             None,
             Arc::<DecoderPlugins>::default(),
-            &LanceCache::no_cache(),
-            FileReaderOptions::default(),
+            // ONE metadata cache for all reads of this file: the first read of a column fills it, later reads hit it
+            &LanceCache::with_capacity(64 * 1024 * 1024),
+            FileReaderOptions {
+                decoder_config: DecoderConfig { cache_repetition_index: fs.crep, ..Default::default() },
+                ..Default::default()
+            },
         )
         .await
         .map_err(|e| format!("open: {e}"))?;
         let lv = leaves(&fs.top);
         let mut pages = vec![];
         let mut all_null_pages = vec![];
+        let mut fz_pages = vec![];
         let mut mb_pages = vec![];
         let mut layouts = std::collections::BTreeSet::new();
         let meta = reader.metadata().clone();
@@ -731,6 +742,7 @@ fn write_file(rt: &tokio::runtime::Runtime, fs: &FileSpec) -> Result<Written, St
                 pages.push(if fs.rows > 0 { vec![fs.rows as u64] } else { vec![] });
                 all_null_pages.push(vec![false; (fs.rows > 0) as usize]);
                 mb_pages.push(vec![None; (fs.rows > 0) as usize]);
+                fz_pages.push(vec![false; (fs.rows > 0) as usize]);
                 continue;
             }
             let col = *field_map.get(&(*id as u32)).ok_or("leaf without column")? as usize;
@@ -751,6 +763,12 @@ fn write_file(rt: &tokio::runtime::Runtime, fs: &FileSpec) -> Result<Written, St
                     .collect(),
             );
             mb_pages.push(ci.page_infos.iter().map(|p| miniblock_probe(p, &bytes)).collect());
+            fz_pages.push(
+                ci.page_infos
+                    .iter()
+                    .map(|p| matches!(&p.encoding, PageEncoding::Structural(pb21::PageLayout { layout: Some(pb21::page_layout::Layout::FullZipLayout(_)) })))
+                    .collect(),
+            );
             for p in ci.page_infos.iter() {
                 if let PageEncoding::Structural(pb21::PageLayout { layout: Some(l) }) = &p.encoding {
                     layouts.insert(match l {
@@ -762,7 +780,7 @@ fn write_file(rt: &tokio::runtime::Runtime, fs: &FileSpec) -> Result<Written, St
                 }
             }
         }
-        Ok(Written { _tmp: tmp, reader, sched, path, field_map, lance_schema, cols, pages, all_null_pages, mb_pages, layouts })
+        Ok(Written { _tmp: tmp, reader, sched, path, field_map, lance_schema, cols, pages, all_null_pages, fz_pages, mb_pages, layouts })
     })
 }
 
@@ -1257,6 +1275,30 @@ fn leaf_under_nested_list(top: &[Node], leaf: usize) -> bool {
     out
 }
 
+
+/// leaves (DFS index) that are variable-width, not forced to a structural encoding, and lie under a list that lies
+/// under a struct (open finding `fullzip_wide_value_list_under_null_struct`)
+fn wide_risk_leaves(top: &[Node]) -> Vec<usize> {
+    fn rec(n: &Node, under_struct: bool, list_under_struct: bool, k: &mut usize, out: &mut Vec<usize>) {
+        match &n.ty {
+            Ty::List(c) | Ty::LList(c) => rec(c, under_struct, list_under_struct || under_struct, k, out),
+            Ty::Struct(ch) => ch.iter().for_each(|c| rec(c, true, list_under_struct, k, out)),
+            t => {
+                if list_under_struct && n.enc.is_none() && matches!(t, Ty::Str | Ty::LStr | Ty::Bin) {
+                    out.push(*k);
+                }
+                *k += 1;
+            }
+        }
+    }
+    let mut k = 0;
+    let mut out = vec![];
+    for n in top {
+        rec(n, false, false, &mut k, &mut out);
+    }
+    out
+}
+
 /// the output line a correct read produces: `rows` cut into batches of `bs`, per projected leaf
 fn render_expected(rows: &[u64], bs: u32, proj: &[usize], want: &[Vec<String>]) -> String {
     if rows.is_empty() || bs == 0 {
@@ -1318,12 +1360,41 @@ impl C25 {
         };
         let reader = &w.reader;
         let params = req.params();
-        let out = catch_unwind(AssertUnwindSafe(|| {
-            self.rt.block_on(async {
-                let stream = reader.read_stream_projected(params, bs, 2, projection, FilterExpression::no_filter())?;
-                stream.try_collect::<Vec<RecordBatch>>().await
-            })
-        }));
+        let run = |params: ReadBatchParams, projection: ReaderProjection| {
+            catch_unwind(AssertUnwindSafe(|| {
+                self.rt.block_on(async {
+                    let stream = reader.read_stream_projected(params, bs, 2, projection, FilterExpression::no_filter())?;
+                    stream.try_collect::<Vec<RecordBatch>>().await
+                })
+            }))
+        };
+        // every request is issued twice through the same metadata cache: the cache must be transparent
+        let first = run(params.clone(), projection.clone());
+        let out = run(params, projection);
+        let same = match (&first, &out) {
+            (Ok(Ok(a)), Ok(Ok(b))) => a == b,
+            (Ok(Err(a)), Ok(Err(b))) => err_code(a).split(' ').take(2).collect::<Vec<_>>() == err_code(b).split(' ').take(2).collect::<Vec<_>>(),
+            (Err(_), Err(_)) => true,
+            _ => false,
+        };
+        if !same {
+            let show = |r: &std::thread::Result<lance_core::Result<Vec<RecordBatch>>>| match r {
+                Ok(Ok(b)) => format!("ok {} rows", b.iter().map(|x| x.num_rows()).sum::<usize>()),
+                Ok(Err(e)) => err_code(e),
+                Err(_) => "panic".to_string(),
+            };
+            res.failures.push(OracleFailure {
+                what: format!(
+                    "read {} bs={bs} proj={proj:?} (cache_repetition_index={}): first read {}, the same read again through the same metadata cache {}",
+                    req.show(),
+                    fs.crep,
+                    show(&first),
+                    show(&out)
+                ),
+                key: Some("cache_not_transparent".into()),
+                line: li,
+            });
+        }
         let expect_rows = if valid_proj && bs > 0 { req.rows(n) } else { None };
         let batches = match out {
             Err(p) => {
@@ -1344,12 +1415,22 @@ impl C25 {
             }
             Ok(Err(e)) => {
                 let code = err_code(&e);
-                if expect_rows.is_some() {
+                if let Some(rows) = &expect_rows {
+                    // open finding: a full-zip page of wide (>= 256 byte) variable-width values in a list under a struct
+                    // that has a null row cannot be decoded
+                    let wide = fs.long_strings
+                        && fs.nullp > 0
+                        && fs.version != LanceFileVersion::V2_0
+                        && wide_risk_leaves(&fs.top).iter().any(|l| proj.contains(l) && w.fz_pages[*l].iter().any(|z| *z));
                     res.failures.push(OracleFailure {
                         what: format!("valid read {} bs={bs} proj={proj:?} failed: {e}", req.show()),
-                        key: Some(self.classify(w, fs, "read_error")),
+                        key: Some(if wide { "fullzip_wide_value_list_under_null_struct".to_string() } else { self.classify(w, fs, "read_error") }),
                         line: li,
                     });
+                    if wide {
+                        res.tags.push("out:known_wide_fullzip".into());
+                        return render_expected(rows, bs, proj, &w.leaf_tokens(fs));
+                    }
                 }
                 res.tags.push(format!("out:{}", code.split(' ').take(2).collect::<Vec<_>>().join("_")));
                 return code;
@@ -1520,6 +1601,10 @@ const SPECS: &[&str] = &[
     "S(S(fsl2i,L(fsb2)))",
     "S(LL(L(str)))",
     "S(L(bin),L(L(i64)),S(i32))",
+    "S(L(str@z),i32)",
+    "S(LL(i64@z))",
+    "S(L(S(i32@z,bin@z)))",
+    "S(bin@z,L(L(str@z)))",
 ];
 
 fn random_spec(rng: &mut Rng) -> String {
@@ -1528,6 +1613,7 @@ fn random_spec(rng: &mut Rng) -> String {
         let b = base[rng.usize(base.len())].to_string();
         match rng.below(10) {
             0 => format!("{b}@m"),
+            1 | 2 if ["i32", "i64", "str", "lstr", "bin", "fsb2"].contains(&b.as_str()) => format!("{b}@z"),
             _ => b,
         }
     }
@@ -1608,7 +1694,7 @@ impl Prop for C25 {
     }
     fn budget(&self, tier: Tier) -> usize {
         match tier {
-            Tier::Quick => 800,
+            Tier::Quick => 400,
             Tier::Thorough => 12000,
             Tier::Search => 3000,
         }
@@ -1637,6 +1723,7 @@ impl Prop for C25 {
             };
             let zrisk = has_fullzip_risk(&top);
             let long_strings = !zrisk && rng.chance(1, 8) && !big;
+            let wide_risk = !wide_risk_leaves(&top).is_empty();
             // write batches
             let mut batches = vec![];
             let mut left = rows;
@@ -1663,13 +1750,14 @@ impl Prop for C25 {
                 top,
                 spec,
                 seed: rng.next_u64() >> 16,
-                nullp: *rng.pick(&[0, 1, 3, 6, 16]),
+                nullp: if long_strings && wide_risk { 0 } else { *rng.pick(&[0, 1, 3, 6, 16]) },
                 maxlen: if big { 3 } else { *rng.pick(&[2, 5, 40]) },
                 long_strings,
                 batches,
                 cache: *rng.pick(&[Some(1), Some(1), Some(64), Some(4096), None]),
                 maxpage: if zrisk || long_strings { None } else { *rng.pick(&[None, None, Some(64), Some(1024), Some(16384)]) },
                 slice: *rng.pick(&[0, 0, 1, 7]),
+                crep: if zrisk || long_strings { !rng.chance(1, 4) } else { rng.chance(1, 3) },
             };
             let w = match write_file(&self.rt, &fs) {
                 Ok(w) => w,
@@ -1755,6 +1843,26 @@ impl Prop for C25 {
                         lines.push(format!("sched {} {}", rng.usize(nleaves), show_ranges(&[(s, rng.range(s, n))])));
                     }
                 }
+            }
+            // reads that include the last row of a full-zip page (its closing repetition-index entry), issued after the
+            // reads above have filled the metadata cache
+            for k in 0..nleaves {
+                let mut at = 0u64;
+                let mut lasts: Vec<u64> = vec![];
+                for (p, nrows) in w.pages[k].iter().enumerate() {
+                    at += *nrows;
+                    if w.fz_pages[k][p] && *nrows > 0 {
+                        lasts.push(at - 1);
+                    }
+                }
+                if lasts.is_empty() {
+                    continue;
+                }
+                lasts.truncate(12);
+                lines.push(format!("read indices {} bs={} proj={k}", show_nat_list(lasts.iter().copied()), rng.range(1, 5)));
+                let l = lasts[rng.usize(lasts.len())];
+                lines.push(format!("read range {} {} bs=4 proj={k}", l.saturating_sub(rng.below(4)), l + 1));
+                lines.push(format!("read indices {} bs=2 proj={k}", show_nat_list(lasts.iter().copied())));
             }
             // reads aimed at the rows that cross or touch a mini-block chunk boundary (trailer / preamble logic)
             let mut edge_rows: Vec<u64> = vec![];
